@@ -217,6 +217,7 @@ type construct struct {
 	nonErr   bool   // a thrown value that is not an Error instance: Go side is a plain error with the value's ToString
 	group    string // input class used by signatures
 	nested   bool   // two error constructs in one expression (family nested)
+	natives  int    // native functions that are active (required frames) between the call site and the raise site: f.call, map, indirect eval
 	noTrace  bool   // trace not asserted (error object created elsewhere)
 	argCalls []int  // offsets in text of calls evaluated in the construct's own argument list (recorded before the anchor)
 }
@@ -284,6 +285,23 @@ func buildConstructs() []construct {
 	add(construct{id: "Function-syntax", text: `Function("var = 1")`, native: true, class: "SyntaxError", group: "syntax"})
 	add(construct{id: "new-RegExp-syntax", text: `new RegExp("(")`, anchor: 4, class: "SyntaxError", group: "regexp"})
 	add(construct{id: "RegExp-syntax", text: `RegExp("(")`, native: true, class: "SyntaxError", group: "regexp"})
+	// errors raised by a built-in before / instead of running code, reached through other
+	// built-ins or indirectly: the trace lists exactly the active calls
+	add(construct{id: "eval-alias-syntax", setup: vars("var ev0 = eval;"), text: `ev0("var = 1")`, natives: 1, class: "SyntaxError", group: "indirect"})
+	add(construct{id: "eval-seq-syntax", text: `(0,eval)("var = 1")`, anchor: 1, kind: ckNonRef, natives: 1, class: "SyntaxError", group: "indirect"})
+	add(construct{id: "eval-call-syntax", text: `eval.call(null, "var = 1")`, natives: 2, class: "SyntaxError", group: "indirect"})
+	add(construct{id: "eval-apply-syntax", text: `eval.apply(null, ["var = 1"])`, natives: 2, class: "SyntaxError", group: "indirect"})
+	add(construct{id: "eval-map-syntax", text: `["var = 1"].map(eval)`, natives: 2, class: "SyntaxError", group: "indirect"})
+	add(construct{id: "eval-member-syntax", setup: vars("var oe = {e: eval};"), text: `oe.e("var = 1")`, natives: 1, class: "SyntaxError", group: "indirect"})
+	add(construct{id: "Function-call-syntax", text: `Function.call(null, "var = 1")`, natives: 1, native: true, class: "SyntaxError", group: "indirect"})
+	add(construct{id: "RegExp-apply-syntax", text: `RegExp.apply(null, ["("])`, natives: 1, native: true, class: "SyntaxError", group: "indirect"})
+	add(construct{id: "json-parse-call", text: `JSON.parse.call(null, "{")`, natives: 1, native: true, class: "SyntaxError", group: "indirect"})
+	add(construct{id: "json-parse-map", text: `["{"].map(JSON.parse)`, natives: 1, native: true, class: "SyntaxError", group: "indirect"})
+	add(construct{id: "decodeURI-call", text: `decodeURI.call(null, "%")`, natives: 1, native: true, class: "URIError", group: "indirect"})
+	add(construct{id: "toFixed-call", text: `(5).toFixed.call(5, 21)`, anchor: 1, natives: 1, native: true, class: "RangeError", group: "indirect"})
+	add(construct{id: "toString-forEach", text: `[5].forEach(Number.prototype.toString)`, natives: 1, native: true, class: "TypeError", group: "indirect"})
+	add(construct{id: "defineProperty-apply", setup: segs(s("var fz = "), c("Object.freeze({})"), s(";")),
+		text: `Object.defineProperty.apply(null, [fz, "x", {value: 1}])`, natives: 1, native: true, class: "TypeError", group: "indirect"})
 	// JSON / URI / defineProperty
 	add(construct{id: "json-cyclic", setup: vars("var cyc = {}; cyc.c = cyc;"), text: "JSON.stringify(cyc)", native: true, class: "TypeError", group: "json"})
 	add(construct{id: "json-parse", text: `JSON.parse("{")`, native: true, class: "SyntaxError", group: "json"})
@@ -731,6 +749,9 @@ func (g *gen) construct(w *tbuf, fr *frame, lvl int) {
 		g.hasNonRef = true
 	case ckUnpos:
 		fr.events = append(fr.events, event{kind: evUnpos, off: o, end: o + len(k.text) - 1})
+	}
+	for i := 0; i < k.natives; i++ {
+		g.pushNative()
 	}
 	if k.native {
 		f := g.pushNative()
